@@ -23,6 +23,11 @@ Inductive case :=
 (** Short name used in the case literals. *)
 Definition A_ := Build_attribute.
 Definition C_ := Build_cval.
+(* (include result, exclude result) *)
+Definition Ptf := (true, false).
+Definition Pft := (false, true).
+Definition Ptt := (true, true).
+Definition Pff := (false, false).
 
 Inductive obs :=
 | OConv (r : list res) (n : nat)
